@@ -91,6 +91,18 @@ CLAIMED = {
         "Trusted: rapid; the must-reject predicate is written from the statement's list only. Byte-level decoding is not fuzzed in the quick tier.",
         "DESIGN.md 4/C16",
     ),
+    "C12": (
+        "model-based testing of request sequences over hosts against per-cluster answer tables (rapid), with invocation logging per cluster",
+        "Generated-input search: the real multi-cluster token-review authenticator and SAR authorizer over a stub ClientProvider with per-cluster fake kube clientsets whose answers differ for the same token / (user, attributes); sequences alternate hosts, toggle 'cannot be asked', stop+recreate clusters with new tables and re-home aliases, under cache TTLs {0, 50 ms, 10 min}; every result must be the own cluster's answer (the user name / reason carries the cluster id) and only the own cluster's API may be invoked. Exploration.",
+        "Trusted: rapid, client-go fake clientset, the stub provider. Non-retried review errors only.",
+        "DESIGN.md 4/C12",
+    ),
+    "C14": (
+        "property-based testing of pick sequences with a strict window oracle (explicit subset) and a bounded-deviation oracle (no subset), sequential and concurrent (rapid)",
+        "Generated-input search: k in 1..12 endpoints with scripted healthy/unhealthy/disabled states, explicit subsets in any order: every window of N consecutive picks (MatchAttributes+Pop per pick) gives each ready endpoint floor/ceil(N/r), totals with 2-8 concurrent pickers stay balanced, only ready subset members are picked; without subset 4e5 picks from 4 goroutines deviate from N/r by <= 64. Exploration; interleavings of the cursor update are those the Go scheduler happens to produce.",
+        "Trusted: rapid, Go scheduler for the concurrent part, the constant 64 for the no-subset case (see DESIGN.md).",
+        "DESIGN.md 4/C14",
+    ),
 }
 
 PENDING = {}
